@@ -47,6 +47,9 @@ func edge(a, b int) []string { return []string{nid(a), nid(b)} }
 
 func famRandom(r *rng, big bool) [][]string {
 	n := r.between(2, 9)
+	if r.chance(35) {
+		n = r.between(8, 14)
+	}
 	if big {
 		n = r.between(10, 28)
 	}
@@ -315,6 +318,34 @@ func famSlack(r *rng, big bool) [][]string {
 	return es
 }
 
+// connected random digraph: a random tree with random edge directions plus extra random edges (4..16 nodes)
+func famConnected(r *rng, big bool) [][]string {
+	n := r.between(4, 16)
+	if big {
+		n = r.between(16, 34)
+	}
+	m := n - 1 + r.intn(2*n)
+	var es [][]string
+	for i := 1; i < n; i++ {
+		a := r.intn(i)
+		if r.chance(50) {
+			es = append(es, edge(a, i))
+		} else {
+			es = append(es, edge(i, a))
+		}
+	}
+	for len(es) < m {
+		a, b := r.intn(n), r.intn(n)
+		if a != b {
+			es = append(es, edge(a, b))
+		}
+	}
+	if r.chance(30) {
+		shuffleEdges(r, es)
+	}
+	return es
+}
+
 // several simple cycles hanging off hubs or chained together, plus a cyclic remainder: the shapes on which a
 // feedback-arc heuristic has to place nodes that become sources and sinks at the same time
 func famPendantCycles(r *rng, big bool) [][]string {
@@ -368,7 +399,7 @@ func famPendantCycles(r *rng, big bool) [][]string {
 var baseFamilies = []family{
 	{"random", famRandom}, {"dag", famDAG}, {"tree", famTree}, {"path", famPath}, {"twocycles", famTwoCycles},
 	{"hubreverse", famHubReverse}, {"selfloops", famSelfLoops}, {"diamonds", famDiamonds}, {"wide", famWide},
-	{"longedges", famLongEdges}, {"slack", famSlack}, {"pendantcycles", famPendantCycles},
+	{"longedges", famLongEdges}, {"slack", famSlack}, {"pendantcycles", famPendantCycles}, {"connected", famConnected},
 }
 
 func shuffleEdges(r *rng, es [][]string) {
